@@ -357,4 +357,77 @@ class MutationChains(DepthOps):
         return st.builds(lambda c, n, x: {**c, "ops": [["create"], ["create"]] + [["mutate", -1]] * n + ([["crossover", -1, 0]] if x else []) + [["mutate", -1]] * 2}, base, st.integers(3, 12), st.booleans())
 
 
-FACETS = [DepthOps(), DepthOpsExpansion(), BelowMinimum(), FrontierExhaustive(), Initializers(), MutationChains()]
+class AfterBacktracking(Facet):
+    """Grammars whose dependent refinements make a production infeasible in some contexts (creation
+    then backtracks to another production). After a history of operations on such a grammar, depth-
+    limited creation at the minimum depth and one above is compared with the same creation (same
+    decider, same seed) on a freshly materialised, unused copy of the grammar: where the fresh copy
+    yields a program, the used one must too - whatever the earlier operations did must not make a
+    feasible limit fail midway."""
+
+    name = "feasible_limit_after_backtracking_history"
+    flags = Flags(dependent=True, infeasible=True, user_mh=True, max_concrete=6, concrete_start=True)
+
+    def budget(self, tier):
+        return (60, 4) if tier == "quick" else (400, 16)
+
+    def strategy(self, tier):
+        return world_cases(self.flags, reps=("tree", "ge", "dsge"), deciders=("maxdepth", "pigrow", "full"), max_ops=8, depth_extras=(0, 0, 1, 2), with_map=True)
+
+    def run(self, case, rec):
+        from geneticengine.random.sources import NativeRandomSource
+
+        w = World(case)
+        twin = None
+        try:
+            if not w.productive():
+                rec.discard()
+                return
+            try:
+                w.build()
+            except Exception:  # noqa: BLE001
+                rec.discard()
+                return
+            backtracked = {"n": 0}
+
+            def obs(ev, w_):
+                if ev.exc is not None:
+                    backtracked["n"] += 1
+
+            w.run(obs)
+            twin = World(case)
+            rec.label("rep:" + case["rep"], "history-with-failures" if backtracked["n"] else "history-without-failures")
+            rec.sample({"spec": spec_str(case["spec"]), "rep": case["rep"], "ops": case["ops"]}, limit=2)
+            for d in (w.min_depth, w.min_depth + 1):
+                for kind in ("maxdepth", "full", "pigrow"):
+                    for seed in range(3):
+                        res = []
+                        for ww in (twin, w):
+                            src = NativeRandomSource(seed)
+                            try:
+                                p = ww.make_rep(ww.make_decider(src, kind, d), "tree").create_genotype(src)
+                                res.append(("ok", safe_depth(p, ww.info), None))
+                            except Exception as e:  # noqa: BLE001
+                                res.append(("exc", None, e))
+                        (t_kind, t_dep, _), (u_kind, u_dep, u_exc) = res
+                        if t_kind == "ok":
+                            rec.nontrivial((spec_str(case["spec"]), d, kind, seed))
+                        if t_kind == "ok" and u_kind == "exc":
+                            rec.fail(
+                                f"C03/feasible-limit-failed/after-earlier-operations/{exc_bucket(u_exc)}",
+                                f"{kind} creation (seed {seed}, max_depth {d}, grammar minimum {w.min_depth}) succeeds on a fresh copy of the grammar but raised {u_exc!r} on the grammar object that had been used for {case['ops']} ({case['rep']}); grammar {spec_str(case['spec'])}",
+                            )
+                            return
+                        if u_kind == "ok" and u_dep > d:
+                            rec.fail(
+                                f"C03/depth-exceeded/after-earlier-operations/{kind}",
+                                f"{kind} creation (seed {seed}, max_depth {d}) on a used grammar produced depth {u_dep}; grammar {spec_str(case['spec'])}",
+                            )
+                            return
+        finally:
+            w.cleanup()
+            if twin is not None:
+                twin.cleanup()
+
+
+FACETS = [DepthOps(), DepthOpsExpansion(), BelowMinimum(), FrontierExhaustive(), Initializers(), MutationChains(), AfterBacktracking()]
